@@ -5,7 +5,8 @@
    the statements (expected_file, expected_stdout, alias_free, ...) is
    rocq/Proofs/StreamsSpec.v. *)
 From Verif Require Import Lib.Base Model.Streams Proofs.StreamsBase Proofs.StreamsSpec
-  Proofs.StreamsStdout Proofs.StreamsOrder Proofs.StreamsFiles Proofs.StreamsMisc Proofs.StreamsWriter.
+  Proofs.StreamsStdout Proofs.StreamsOrder Proofs.StreamsFiles Proofs.StreamsMisc Proofs.StreamsWriter
+  Proofs.StreamsPrefix.
 
 (* ---------- delivered_in_order ---------- *)
 
@@ -34,6 +35,17 @@ Theorem C13_delivered_in_order_stdout :
   run E (init_state fs None) ops = (s, r) -> sk_data (st_sink s) = expected_stdout (st_log s).
 Proof. exact stdout_delivered. Qed.
 Print Assumptions C13_delivered_in_order_stdout.
+
+(* Standard output when its writer accepts L bytes and then fails, at any
+   offset, in any history, with any Output: what the writer has received at
+   the end of the run is exactly the first L bytes of the issued stream (all
+   of it if it is shorter) -- never reordered, duplicated or corrupted. *)
+Theorem C13_stdout_prefix :
+  forall (L : nat) (E : env) (fs : list (name * bytes)) (ops : list op) (s : state) (r : result),
+  run E (init_state fs (Some L)) ops = (s, r) ->
+  sk_data (st_sink s) = firstn L (expected_stdout (st_log s)).
+Proof. exact stdout_prefix. Qed.
+Print Assumptions C13_stdout_prefix.
 
 (* the buffer of a file/command stream is a FIFO: flushed ++ kept = old ++ new *)
 Theorem C13_stream_buffer_fifo : forall cap buf p f r, buf_bytes cap buf p = (f, r) -> f ++ r = buf ++ p.
